@@ -168,10 +168,13 @@ func ToGNMITypedValue(v *sdcpb.TypedValue) *gnmi.TypedValue {
 		return &gnmi.TypedValue{
 			Value: &gnmi.TypedValue_BytesVal{BytesVal: v.GetBytesVal()},
 		}
-	// case *sdcpb.TypedValue_DecimalVal:
-	// 	return &gnmi.TypedValue{
-	// 		Value: &gnmi.TypedValue_DecimalVal{DecimalVal: v.GetDecimalVal()},
-	// 	}
+	case *sdcpb.TypedValue_DecimalVal:
+		return &gnmi.TypedValue{
+			Value: &gnmi.TypedValue_DecimalVal{DecimalVal: &gnmi.Decimal64{
+				Digits:    v.GetDecimalVal().GetDigits(),
+				Precision: v.GetDecimalVal().GetPrecision(),
+			}},
+		}
 	// case *sdcpb.TypedValue_FloatVal:
 	// 	return &gnmi.TypedValue{
 	// 		Value: &gnmi.TypedValue_FloatVal{FloatVal: v.GetFloatVal()},
